@@ -226,10 +226,13 @@ def c06(tier: str) -> int:
                ['add', 'Rr', 'xml'], ['add', 'Ra2', 'xml'], ['ili', 'f1', 'xml']],
     })
     scen = [
-        {'snap': 'S0', 'op': ['add', 'Rar', 'xml'], 'then': ['add', 'Rar', 'xml']},
+        {'snap': 'S0', 'op': ['add', 'Rar', 'xml'], 'then': ['add', 'Rar', 'xml'],
+         'chain': [['remove', 'a:1'], ['add', 'Ra1', 'xml']]},
         {'snap': 'S0', 'op': ['add', 'Rax', 'gz'], 'then': ['add', 'Ra1', 'xml']},
-        {'snap': 'S1', 'op': ['add', 'Rx', 'xml'], 'then': ['add', 'Rx', 'xml']},
-        {'snap': 'S1', 'op': ['add', 'Rar', 'mem'], 'then': ['add', 'Rr', 'xml']},
+        {'snap': 'S1', 'op': ['add', 'Rx', 'xml'], 'then': ['remove', 'a:1'],
+         'chain': [['add', 'Rax', 'xml'], ['remove', 'x:1'], ['add', 'Rx', 'xml']]},
+        {'snap': 'S1', 'op': ['add', 'Rar', 'mem'], 'then': ['add', 'Rr', 'xml'],
+         'chain': [['remove', '*'], ['add', 'Rar', 'xml']]},
         {'snap': 'S2', 'op': ['remove', '*'], 'then': ['add', 'Ru', 'xml']},
         {'snap': 'S2', 'op': ['remove', 'a:*'], 'then': ['remove', 'r']},
         {'snap': 'S2', 'op': ['remove', 'a:1'], 'then': ['add', 'Ra1', 'xml']},
@@ -250,7 +253,8 @@ def c06(tier: str) -> int:
         for kind, n in (('callback', cb), ('authorizer', au)):
             for k in range(1, n + 1):
                 jobs.append({'mode': 'fault', 'snap': snaps[s['snap']], 'op': s['op'],
-                             'kind': kind, 'k': k, 'then': s['then']})
+                             'kind': kind, 'k': k, 'then': s['then'],
+                             'then_chain': s.get('chain', []) if k % 3 == 0 else []})
         jobs.append({'mode': 'fault', 'snap': snaps[s['snap']], 'op': s['op'],
                      'kind': 'close', 'k': 1, 'then': s['then']})
     nfault = len(jobs)
